@@ -98,8 +98,8 @@ def next (cs : Str) (i : Nat) : Step :=
     if isWhitespace c then .skip 0
     else if c = '/' then
       match rest with
-      | '/' :: r => .skip (1 + commentLen r)
-      | _ => .bad i (some '/')
+      | d :: r => if d = '/' then .skip (1 + commentLen r) else .bad i (some '/')
+      | [] => .bad i (some '/')
     else if isIdentStart c then
       -- maximal munch: the longest run of identifier characters
       let w := c :: (span isIdentChar rest).1
@@ -116,18 +116,26 @@ def next (cs : Str) (i : Nat) : Step :=
       | [] => .bad i (some '$')
     else if c = ':' then
       match rest with
-      | ':' :: _ => .emit (.dcolon i) 1        -- maximal munch: `::` before `:`
-      | _ => .emit (.colon i) 0
+      | d :: _ => if d = ':' then .emit (.dcolon i) 1 else .emit (.colon i) 0   -- maximal munch: `::` before `:`
+      | [] => .emit (.colon i) 0
     else if c = '#' then
       match rest with
-      | '[' :: r =>
-        match attrBody r (i + 2) ['['] with
-        | .bad j ch => .bad j ch
-        | .done body _ => .emit (.attr ('#' :: '[' :: body) i) (1 + body.length)
-      | _ => .bad i (some '#')
+      | d :: r =>
+        if d = '[' then
+          match attrBody r (i + 2) ['['] with
+          | .bad j ch => .bad j ch
+          | .done body _ => .emit (.attr ('#' :: '[' :: body) i) (1 + body.length)
+        else .bad i (some '#')
+      | [] => .bad i (some '#')
     else match punct c i with
       | some tok => .emit tok 0
       | none => .bad i (some c)
+
+theorem identStart_identChar {c : Char} (h : isIdentStart c = true) : isIdentChar c = true := by
+  simp only [isIdentStart, isIdentChar, isAsciiAlnum, Bool.or_eq_true] at *
+  rcases h with h | h
+  · exact Or.inl (Or.inl h)
+  · exact Or.inr h
 
 theorem drop_succ_length_lt (cs : Str) (k : Nat) (h : cs ≠ []) : (cs.drop (k + 1)).length < cs.length := by
   cases cs with
